@@ -20,7 +20,7 @@ def run(ctx, crate):
     def emitted(eng, st, args, site):
         st.facts = st.facts | {('emitted',)}; return None
     e = Engine(crate, opaque=opq, models={PUSH: emitted, RECUR: emitted}); r = e.run(RECUR); ctx.functions |= e.visited_fns
-    evs = [ev for ev in e.events.values() if len(ev.site) == 2]
+    evs = list(e.events.values())
     cc = [ev for ev in evs if ev.callee == EC + "contains_cone"]; ct = [ev for ev in evs if ev.callee == EC + "contains"]; ov = [ev for ev in evs if ev.callee == EC + "overlap_cone"]
     pushes = [ev for ev in evs if ev.callee == PUSH]
     sc = [ev for ev in evs if ev.callee == RECUR]
